@@ -1,0 +1,16 @@
+package misc
+
+import (
+	"bytes"
+	"encoding/json"
+)
+
+// RegoString returns s as a Rego string literal (quotes included). Rego strings use JSON escaping, so every character of
+// s -- quotes, backslashes, new lines -- reaches the policy as data and cannot alter the code it is pasted into.
+func RegoString(s string) string {
+	var b bytes.Buffer
+	enc := json.NewEncoder(&b)
+	enc.SetEscapeHTML(false)
+	_ = enc.Encode(s)
+	return string(bytes.TrimRight(b.Bytes(), "\n"))
+}
